@@ -4,7 +4,6 @@ import (
 	"go/constant"
 	"go/token"
 	"go/types"
-	"sort"
 	"strings"
 
 	"golang.org/x/tools/go/ssa"
@@ -80,7 +79,7 @@ func purePredicate(f *ssa.Function, depth int) bool {
 
 func c12SkipLoops(c *Ctx, p *core.Prog) {
 	r := c.R
-	r.Rule("skip-loop-terminator", "in pkg/sql/parser, a loop with an iteration that calls advance() without having taken a positive token test (it consumes any token) tests for both the end of input and the semicolon inside the loop")
+	r.Rule("skip-loop-terminator", "in pkg/sql/parser, a loop in which advance() can be reached while the current token has not been examined by a positive token test since the cursor last moved (it consumes any token) tests for both the end of input and the semicolon inside the loop")
 	pk := p.Pkg("pkg/models")
 	if pk == nil {
 		r.Fatal("anchor not found: package pkg/models")
@@ -253,15 +252,89 @@ func c12SkipLoops(c *Ctx, p *core.Prog) {
 		return isParserRecv(f) && f.Name() == "advance"
 	}
 	nLoops, nSkip := 0, 0
+	const (
+		stE = 1 // the current token has been examined by a positive test since the cursor last moved
+		stU = 2 // it has not
+	)
+	// functions from which advance() is reachable: calling one may move the cursor
+	mayAdvance := map[*ssa.Function]bool{}
+	if adv := p.Method("pkg/sql/parser", "Parser", "advance"); adv != nil {
+		g := p.Restrict(func(f *ssa.Function) bool { return f != nil && f.Blocks != nil && core.InPkgs(f, "pkg/sql/parser") })
+		for f := range g.ReachesIn(adv) {
+			mayAdvance[f] = true
+		}
+		mayAdvance[adv] = true
+	} else {
+		r.Fatal("anchor not found: (*Parser).advance")
+		return
+	}
+	consumes := func(in ssa.Instruction) bool {
+		c, ok := in.(*ssa.Call)
+		if !ok {
+			return false
+		}
+		f := c.Call.StaticCallee()
+		if f == nil || f.Blocks == nil {
+			return false
+		}
+		return mayAdvance[f]
+	}
 	for _, fn := range p.SrcFuncs("pkg/sql/parser") {
+		if len(fn.Blocks) == 0 {
+			continue
+		}
+		sccs := blockSCCs(fn, nil, nil, nil)
+		if len(sccs) == 0 {
+			continue
+		}
+		// forward may-analysis over the whole function. On entry the token counts as examined: callers dispatch on it.
+		inState := map[*ssa.BasicBlock]int{fn.Blocks[0]: stE}
+		atAdvance := map[ssa.Instruction]int{}
+		for changed := true; changed; {
+			changed = false
+			for _, b := range fn.Blocks {
+				st := inState[b]
+				if st == 0 {
+					continue
+				}
+				for _, in := range b.Instrs {
+					if isAdvance(in) {
+						atAdvance[in] |= st
+					}
+					if consumes(in) {
+						st = stU
+					}
+				}
+				var t tokTest
+				if len(b.Instrs) > 0 {
+					if iff, ok := b.Instrs[len(b.Instrs)-1].(*ssa.If); ok {
+						t = classify(iff.Cond)
+					}
+				}
+				for k, sc := range b.Succs {
+					out := st
+					if t.isTest && k == t.posSucc {
+						out = stE
+					}
+					if inState[sc]|out != inState[sc] {
+						inState[sc] |= out
+						changed = true
+					}
+				}
+			}
+		}
 		seq := 0
-		for _, scc := range blockSCCs(fn, nil, nil, nil) {
+		for _, scc := range sccs {
 			in := blockSet(scc)
 			hasAdv := false
+			var site ssa.Instruction
 			for _, b := range scc {
 				for _, ins := range b.Instrs {
 					if isAdvance(ins) {
 						hasAdv = true
+						if atAdvance[ins]&stU != 0 && (site == nil || ins.Pos() < site.Pos()) {
+							site = ins
+						}
 					}
 				}
 			}
@@ -269,56 +342,6 @@ func c12SkipLoops(c *Ctx, p *core.Prog) {
 				continue
 			}
 			nLoops++
-			// headers: blocks of the cycle entered from outside
-			var heads []*ssa.BasicBlock
-			for _, b := range scc {
-				for _, pr := range b.Preds {
-					if !in[pr] {
-						heads = append(heads, b)
-						break
-					}
-				}
-			}
-			if len(heads) == 0 {
-				continue
-			}
-			sort.Slice(heads, func(i, j int) bool { return heads[i].Index < heads[j].Index })
-			// blocks reachable inside the cycle from a header without taking a positive token edge
-			free := map[*ssa.BasicBlock]bool{}
-			work := append([]*ssa.BasicBlock{}, heads...)
-			for len(work) > 0 {
-				b := work[len(work)-1]
-				work = work[:len(work)-1]
-				if free[b] {
-					continue
-				}
-				free[b] = true
-				var t tokTest
-				if iff, ok := b.Instrs[len(b.Instrs)-1].(*ssa.If); ok {
-					t = classify(iff.Cond)
-				}
-				for k, s := range b.Succs {
-					if !in[s] {
-						continue
-					}
-					if t.isTest && k == t.posSucc {
-						continue
-					}
-					// going round again starts a new iteration: fine, same state
-					work = append(work, s)
-				}
-			}
-			var site ssa.Instruction
-			for _, b := range scc {
-				if !free[b] {
-					continue
-				}
-				for _, ins := range b.Instrs {
-					if isAdvance(ins) && (site == nil || ins.Pos() < site.Pos()) {
-						site = ins
-					}
-				}
-			}
 			if site == nil {
 				continue
 			}
@@ -332,6 +355,7 @@ func c12SkipLoops(c *Ctx, p *core.Prog) {
 					}
 				}
 			}
+			_ = in
 			key := core.FnName(fn) + sprintf("|skip#%d", seq)
 			var miss []string
 			if !tested[eof] {
@@ -343,7 +367,7 @@ func c12SkipLoops(c *Ctx, p *core.Prog) {
 			if len(miss) == 0 {
 				r.OK("skip-loop-terminator", key, p.Pos(site.Pos()), "the skip loop tests for end of input and semicolon")
 			} else {
-				r.Violate("skip-loop-terminator", key, p.Pos(site.Pos()), "this loop consumes any token (advance() without a positive token test in the iteration) and never tests for "+strings.Join(miss, " / ")+": a statement cut off here swallows the `;` and the statements after it, which recovery then cannot return")
+				r.Violate("skip-loop-terminator", key, p.Pos(site.Pos()), "this loop consumes any token (advance() on a token that no positive test has examined since the cursor last moved) and never tests for "+strings.Join(miss, " / ")+": a statement cut off here swallows the `;` and the statements after it, which recovery then cannot return")
 			}
 		}
 	}
